@@ -84,3 +84,130 @@ def encodable(text):
         return True
     except UnicodeEncodeError:
         return False
+
+
+# ------------------------------------------------------------------ C04 / C34 driver (shared)
+import collections
+import threading
+import time
+
+TIERS = {
+    # n_random: behaviours of the random enumerator; maxsolid/souplen/skeldiag: bounds of the exhaustive one;
+    # max_bytes: corpus programs larger than this are left out (None = whole corpus)
+    "C04": {"quick": dict(n_random=1000, maxsolid=0, souplen=1, skeldiag=0, truncpct=0, max_bytes=2500),
+            "thorough": dict(n_random=10000, maxsolid=5, souplen=1, skeldiag=1, truncpct=0, max_bytes=None)},
+    "C34": {"quick": dict(n_random=800, maxsolid=0, souplen=1, skeldiag=0, truncpct=35, max_bytes=2500),
+            "thorough": dict(n_random=9000, maxsolid=4, souplen=1, skeldiag=1, truncpct=35, max_bytes=None)},
+}
+
+
+def _site(loc, msg):
+    s = "%s|%s" % (loc or "?", " ".join((msg or "").split())[:90])
+    return s.encode("ascii", "replace").decode("ascii")
+
+
+def _solid_lex(text):
+    return [l["s"] for l in lexemes(text) if l["k"] not in ("ws", "nl", "com")]
+
+
+def generate(prop, tier, seed, wd):
+    """run the random and the exhaustive enumerator of spec/front/FrontGen.tla; returns (cases, info)"""
+    par = TIERS[prop][tier]
+    corpus = os.path.join(wd, "corpus.ndjson")
+    rows = corpus_file(corpus, par["max_bytes"])
+    env = dict(TLC_ENV, CORPUS=corpus, MAXSOLID=par["maxsolid"], SOUPLEN=par["souplen"], SKELDIAG=par["skeldiag"],
+               TRUNCPCT=par["truncpct"], OBS=os.devnull)
+    mod = os.path.join(vlib.SPEC, "props", prop + ".tla")
+    res = {}
+    err = []
+
+    def run(kind):
+        try:
+            if kind == "random":
+                r = vlib.tlc(mod, cfg=mod[:-4] + ".cfg", simulate=par["n_random"], depth=2, seed=seed, env=env,
+                             metadir=os.path.join(wd, "meta_r"), timeout=1500)
+            else:
+                r = vlib.tlc(mod, cfg=mod[:-4] + "x.cfg", env=env, metadir=os.path.join(wd, "meta_x"), timeout=1500)
+            vlib.tlc_ok(r, mod + " (" + kind + ")")
+            res[kind] = r
+        except Exception as e:  # noqa
+            err.append(e)
+
+    ths = [threading.Thread(target=run, args=(k,)) for k in ("random", "exhaustive")]
+    for t in ths:
+        t.start()
+    for t in ths:
+        t.join()
+    if err:
+        raise err[0] if isinstance(err[0], vlib.ToolError) else vlib.ToolError(str(err[0]))
+    cases = []
+    for kind in ("exhaustive", "random"):
+        for c in res[kind].cases():
+            c["src"] = kind
+            cases.append(c)
+    info = {"corpus_programs": len(rows), "tlc_random_states": res["random"].generated,
+            "tlc_exhaustive_states": res["exhaustive"].distinct, "tlc_wall_s": round(max(r.wall for r in res.values()), 1),
+            "generated_random": sum(1 for c in cases if c["src"] == "random"),
+            "generated_exhaustive": sum(1 for c in cases if c["src"] == "exhaustive")}
+    return cases, info, par
+
+
+def to_harness(cases, extra):
+    """assemble texts, drop non-encodable ones (a prefix may split a surrogate pair), merge identical texts"""
+    seen = {}
+    out = []
+    dropped = 0
+    for c in cases:
+        text = assemble(c["parts"])
+        if not encodable(text):
+            dropped += 1
+            continue
+        if text in seen:
+            continue
+        seen[text] = c["id"]
+        h = {"id": c["id"], "files": {"main.abra": text}, "gen": c["gen"], "op": c["op"], "src": c["src"], "prog": c["prog"]}
+        h.update(extra)
+        out.append(h)
+    return out, dropped
+
+
+def validate(prop, wd, rows):
+    """TLC decides: rows = observation records; returns ({id: verdict{key, expect}} for the illegal ones, TlcResult)"""
+    obs_path = os.path.join(wd, "obs_summary.ndjson")
+    vlib.write_ndjson(obs_path, rows)
+    empty = os.path.join(wd, "empty.ndjson")
+    open(empty, "w").close()
+    mod = os.path.join(vlib.SPEC, "props", prop + ".tla")
+    env = dict(TLC_ENV, CORPUS=empty, MAXSOLID=0, SOUPLEN=0, SKELDIAG=0, TRUNCPCT=0, OBS=obs_path)
+    r = vlib.tlc(mod, cfg=mod[:-4] + "v.cfg", env=env, metadir=os.path.join(wd, "meta_v"), timeout=900)
+    vlib.tlc_ok(r, mod + " (validation)")
+    if r.distinct != len(rows):
+        raise vlib.ToolError("validation covered %d of %d observations" % (r.distinct, len(rows)))
+    return {v["id"]: v for v in r.cases()}, r
+
+
+def confirm_crashes(hcases, obs, wd, fields, extra_modes=()):
+    """A worker death (abort / time limit) is only believed when it reproduces in a second, less loaded harness run
+    (machine load must not become a finding).  Returns (number confirmed, number not reproduced, {id#mode: obs} for the
+    extra single-API runs, wall).  obs entries of unreproduced crashes are replaced by the second observation."""
+    def crashed(o):
+        return any(o.get(f) in ("abort", "timeout") for f in fields)
+    idx = [i for i, o in enumerate(obs) if crashed(o)]
+    if not idx:
+        return 0, 0, {}, 0.0
+    again = []
+    for i in idx:
+        again.append(hcases[i])
+        for m in extra_modes:
+            again.append(dict(hcases[i], id=hcases[i]["id"] + "#" + m, mode=m))
+    o2, wall = vlib.run_harness(again, wd, name="confirm", jobs=min(8, len(again)), timeout=10)
+    second = {c["id"]: o for c, o in zip(again, o2)}
+    confirmed = flaky = 0
+    for i in idx:
+        o = second[hcases[i]["id"]]
+        if crashed(o):
+            confirmed += 1
+        else:
+            flaky += 1
+            obs[i] = o
+    return confirmed, flaky, second, wall
